@@ -20,6 +20,28 @@ PAD = 2  # extra cells around the lattice so that every lattice point is inside 
 _g = {}
 
 
+
+class SecondCallDiffers(Exception):
+    pass
+
+
+def grid_twice(g, lats, lons, *rest, state_variables=(), integrated_variables=()):
+    """grid_trajectory is a function of its arguments: the same arrays are gridded
+    twice (as a per-species loop over one trajectory does) and the second result
+    must equal the first, which is the one compared with the specification."""
+
+    def flat(out):
+        return [np.asarray(x, float) for part in out for x in (part if isinstance(part, (list, tuple)) else [part])]
+
+    first = g.grid_trajectory(lats, lons, *rest, state_variables=state_variables, integrated_variables=integrated_variables)
+    a = [x.copy() for x in flat(first)]
+    second = g.grid_trajectory(lats, lons, *rest, state_variables=state_variables, integrated_variables=integrated_variables)
+    b = flat(second)
+    if len(a) != len(b) or any(x.shape != y.shape or not np.array_equal(x, y, equal_nan=True) for x, y in zip(a, b)):
+        raise SecondCallDiffers('gridding the same arrays a second time gives a different result (cells or amounts), e.g. '
+                                + next((f'output {k}: {x.tolist()[:6]} then {y.tolist()[:6]}' for k, (x, y) in enumerate(zip(a, b)) if x.shape != y.shape or not np.array_equal(x, y, equal_nan=True)), 'a different number of outputs'))
+    return first
+
 def gridder_mod():
     if 'mod' not in _g:
         if 'shapely' not in sys.modules:
@@ -115,7 +137,7 @@ def run_segment(job):
         exact = frame_key[1] <= 0.011 and abs(frame_key[2]) < 1.0
         devs = []
         try:
-            tl, to, _, _, sv, iv = f.g2.grid_trajectory(lats, lons, state_variables=(np.array([7.0, 9.0]),), integrated_variables=(np.array([VALUE]),))
+            tl, to, _, _, sv, iv = grid_twice(f.g2, lats, lons, state_variables=(np.array([7.0, 9.0]),), integrated_variables=(np.array([VALUE]),))
         except Exception as e:
             return [('C05', f'raised-{type(e).__name__}', f'segment {s}: grid_trajectory raised {type(e).__name__}: {e}')]
         n = len(tl)
@@ -163,7 +185,7 @@ def run_chain(job):
         vals2 = np.array([3.0 * (i + 2) for i in range(npt - 1)])
         devs = []
         try:
-            tl, to, ta, tt, sv, iv = f.g4.grid_trajectory(lats, lons, alts, times, state_variables=(state, state * 10), integrated_variables=(vals, vals2))
+            tl, to, ta, tt, sv, iv = grid_twice(f.g4, lats, lons, alts, times, state_variables=(state, state * 10), integrated_variables=(vals, vals2))
         except Exception as e:
             return [('C05', f'chain-raised-{type(e).__name__}', f'{npt}-point trajectory {pts}: grid_trajectory raised {type(e).__name__}: {e}')]
         n = len(tl)
@@ -238,7 +260,7 @@ def run_dateline(case):
         alts = (np.array([c['as'], 3]) / Q + PAD) * 1000.0
         times = (np.array([c['ts'], 5]) / Q + PAD) * 600.0
         try:
-            tl, to, ta, tt, sv, iv = g.grid_trajectory(lats, lons, alts, times, state_variables=(np.array([7.0, 9.0]),), integrated_variables=(np.array([VALUE]),))
+            tl, to, ta, tt, sv, iv = grid_twice(g, lats, lons, alts, times, state_variables=(np.array([7.0, 9.0]),), integrated_variables=(np.array([VALUE]),))
         except Exception as e:
             return [('C05', f'dateline-raised-{type(e).__name__}', f'antimeridian case {c}: raised {type(e).__name__}: {e}')]
         n = len(tl)
